@@ -52,13 +52,17 @@ def loader_oracle():
 
 
 def loader_harness(build):
-    hx = os.path.join(common.BUILD, "harness", "loader_h-" + build.tree)
+    src = os.path.join(common.VERIF, "harness", "loader_h.c")
+    hx = os.path.join(common.BUILD, "harness", "loader_h-%s-%s" % (build.tree, common.hashlib.md5(open(src, "rb").read()).hexdigest()[:8]))
     if not os.path.exists(hx):
         d = os.path.dirname(hx)
         if os.path.isdir(d):
+            import time
             for f in os.listdir(d):
-                if f.startswith("loader_h-"):
-                    os.remove(os.path.join(d, f))
+                # other trees' harnesses may be in use by a concurrent run: only drop old ones
+                fp = os.path.join(d, f)
+                if f.startswith("loader_h-") and time.time() - os.path.getmtime(fp) > 3 * 3600:
+                    os.remove(fp)
         common.cc_harness(hx, [os.path.join(common.VERIF, "harness", "loader_h.c")], build, extra=build.libs_emu)
     return hx
 
